@@ -72,7 +72,7 @@ std::string gen_name(vf::Tape& t, Feat& ft)
 {
     switch (t.pick(8))
     {
-    case 0: return "name";
+    case 0: return (t.data().size() % 2) ? "name" : "#name that starts like a comment line";
     case 1: ft.odd_name = true; return "";
     case 2: ft.odd_name = true; return "with inner blanks";
     case 3: ft.odd_name = true; return "   leading blanks";
